@@ -12,6 +12,11 @@ var Sigma = []string{
 	"a", "_", "é", "1", ".", "$", "*", "\xff", ":",
 }
 
+// EditSyms are the symbols inserted/substituted by the edit neighbourhoods: Sigma plus
+// a few bytes outside it (a lone carriage return, backslash, NUL, the pieces of the
+// two-byte operators, a single quote, and Unicode white space that is not ASCII).
+var EditSyms = append(append([]string{}, Sigma...), "\r", "\\", "\x00", "=", "-", ">", "'", "\u00a0", "\u2028", "\v")
+
 // Input is one generated input with its provenance.
 type Input struct {
 	Text       string
@@ -111,16 +116,25 @@ func (s StructSpace) Gen(i int64, emit func(Input)) {
 // ---------------------------------------------------------------------------
 
 // EditSpace: for each base text, every prefix and every single-symbol
-// insert / delete / substitute over Sigma at every rune position; Pairs adds every
-// pair of such edits (for short bases).
+// insert / delete / substitute over EditSyms at every rune position; Pairs adds every
+// pair of such edits (for short bases). One item = (base, chunk): the first-level
+// edits are dealt round-robin over Chunks items so that a base can be shared out
+// over several workers.
 type EditSpace struct {
-	Label string
-	Bases []string
-	Pairs bool
+	Label  string
+	Bases  []string
+	Pairs  bool
+	Chunks int
 }
 
 func (s EditSpace) Name() string { return s.Label }
-func (s EditSpace) Count() int64 { return int64(len(s.Bases)) }
+func (s EditSpace) chunks() int64 {
+	if s.Chunks <= 0 {
+		return 1
+	}
+	return int64(s.Chunks)
+}
+func (s EditSpace) Count() int64 { return int64(len(s.Bases)) * s.chunks() }
 
 func runeBounds(t string) []int {
 	var b []int
@@ -139,21 +153,29 @@ func singleEdits(t string, emit func(string)) {
 	}
 	for k := 0; k+1 < len(b); k++ { // deletions and substitutions
 		emit(t[:b[k]] + t[b[k+1]:])
-		for _, sym := range Sigma {
+		for _, sym := range EditSyms {
 			emit(t[:b[k]] + sym + t[b[k+1]:])
 		}
 	}
 	for _, p := range b { // insertions
-		for _, sym := range Sigma {
+		for _, sym := range EditSyms {
 			emit(t[:p] + sym + t[p:])
 		}
 	}
 }
 
 func (s EditSpace) Gen(i int64, emit func(Input)) {
-	base := s.Bases[i]
-	emit(Input{Text: base, Desc: s.Label})
+	base := s.Bases[i/s.chunks()]
+	chunk := i % s.chunks()
+	if chunk == 0 {
+		emit(Input{Text: base, Desc: s.Label})
+	}
+	var k int64
 	singleEdits(base, func(e string) {
+		k++
+		if k%s.chunks() != chunk {
+			return
+		}
 		emit(Input{Text: e, Desc: s.Label})
 		if s.Pairs {
 			singleEdits(e, func(e2 string) { emit(Input{Text: e2, Desc: s.Label}) })
@@ -219,9 +241,12 @@ func Spaces(tier string, forC06 bool, repo string) []Space {
 	bases := CanonicalBases(ReducedStatements(true), 1, 0)
 	bases = append(bases, CanonicalBases(SmallStatements(), 2, 0)...)
 	sp = append(sp, EditSpace{Label: "edit1", Bases: bases})
-	sp = append(sp, EditSpace{Label: "edit1-repo", Bases: RepoBases(repo)})
+	sp = append(sp, EditSpace{Label: "edit1-repo", Bases: RepoBases(repo), Chunks: 64})
 	if thorough {
-		sp = append(sp, EditSpace{Label: "edit2", Bases: CanonicalBases(ReducedStatements(true), 1, 40), Pairs: true})
+		sp = append(sp, EditSpace{Label: "edit2", Bases: CanonicalBases(ReducedStatements(true), 1, 40), Pairs: true, Chunks: 32})
+	} else {
+		// two tiny programs with every pair of edits
+		sp = append(sp, EditSpace{Label: "edit2-tiny", Bases: []string{"task a() {\n    echo a\n}\n", "# c\ntask a(\"x\") -> X {}\n"}, Pairs: true, Chunks: 128})
 	}
 	return sp
 }
